@@ -1,9 +1,16 @@
 package lib
 
 import (
+	"io"
+	"net"
+	"time"
+
+	"github.com/refraction-networking/conjure/internal/verifnd"
 	"github.com/refraction-networking/conjure/pkg/phantoms"
 	"github.com/refraction-networking/conjure/pkg/station/geoip"
 	pb "github.com/refraction-networking/conjure/proto"
+	"google.golang.org/protobuf/proto"
+	"google.golang.org/protobuf/types/known/anypb"
 )
 
 // VerifNewManager builds a registration manager without touching the
@@ -22,4 +29,139 @@ func VerifNewManager() *RegistrationManager {
 		PhantomSelector:   sel,
 		GeoIP:             &geoip.EmptyDatabase{},
 	}
+}
+
+// ---- exported scripted connection for harnesses in other packages ----
+
+type VerifRead struct {
+	N   int
+	Err error
+}
+
+type VerifWrite struct {
+	Accept int // bytes accepted (-1: all)
+	Err    error
+}
+
+// VerifScriptConn is a scripted, fault-injecting net.Conn.  When its read
+// script is exhausted it behaves like a silent peer: Read blocks until the
+// deadline and then fails with a timeout error, as net.Conn documents.
+type VerifScriptConn struct {
+	Name        string
+	Reads       []VerifRead
+	Rpos        int
+	Data        [][]byte // optional fixed contents per read (else symbolic)
+	ReadData    []byte
+	Writes      []VerifWrite
+	Wpos        int
+	Written     []byte
+	WriteCalls  int
+	Closed      int
+	CloseErr    error
+	Deadlines   int
+	DeadlineErr int
+	DeadlineE   error
+	Deadline    time.Time
+	Remote      net.Addr
+	TimedOut    bool
+}
+
+func (c *VerifScriptConn) Read(p []byte) (int, error) {
+	if c.Closed > 0 {
+		return 0, net.ErrClosed
+	}
+	if c.Rpos >= len(c.Reads) {
+		if c.Deadline.IsZero() {
+			return 0, io.EOF // no deadline: a silent peer would block for ever; end the stream instead
+		}
+		time.Sleep(time.Until(c.Deadline))
+		c.TimedOut = true
+		return 0, VerifErr(3, "read")
+	}
+	r := c.Reads[c.Rpos]
+	n := r.N
+	if n > len(p) {
+		n = len(p)
+	}
+	var data []byte
+	if c.Rpos < len(c.Data) && c.Data[c.Rpos] != nil {
+		data = c.Data[c.Rpos][:n]
+	} else {
+		data = verifnd.Bytes(c.Name+".data", n)
+	}
+	c.Rpos++
+	copy(p, data)
+	c.ReadData = append(c.ReadData, data...)
+	return n, r.Err
+}
+
+func (c *VerifScriptConn) Write(p []byte) (int, error) {
+	c.WriteCalls++
+	if c.Closed > 0 {
+		return 0, net.ErrClosed
+	}
+	w := VerifWrite{Accept: -1}
+	if c.Wpos < len(c.Writes) {
+		w = c.Writes[c.Wpos]
+	}
+	c.Wpos++
+	n := len(p)
+	if w.Accept >= 0 && w.Accept < n {
+		n = w.Accept
+	}
+	c.Written = append(c.Written, p[:n]...)
+	return n, w.Err
+}
+
+func (c *VerifScriptConn) Close() error {
+	c.Closed++
+	return c.CloseErr
+}
+func (c *VerifScriptConn) LocalAddr() net.Addr { return verifStationAddr }
+func (c *VerifScriptConn) RemoteAddr() net.Addr {
+	if c.Remote != nil {
+		return c.Remote
+	}
+	return verifClientAddr
+}
+func (c *VerifScriptConn) SetDeadline(t time.Time) error {
+	i := c.Deadlines
+	c.Deadlines++
+	if i == c.DeadlineErr && c.DeadlineE != nil {
+		return c.DeadlineE
+	}
+	c.Deadline = t
+	return nil
+}
+func (c *VerifScriptConn) SetReadDeadline(t time.Time) error  { return c.SetDeadline(t) }
+func (c *VerifScriptConn) SetWriteDeadline(t time.Time) error { return c.SetDeadline(t) }
+
+// VerifErr builds one of the error shapes of the network stack (see verifErr).
+func VerifErr(kind int, op string) error { return verifErr(kind, op) }
+
+// VerifSetClient changes the scripted client endpoint.
+func VerifSetClient(ip string) { verifClientAddr = &net.TCPAddr{IP: net.ParseIP(ip), Port: 54321} }
+
+// VerifAdmit builds, tracks and validates a registration for the given secret
+// the way the ingest pipeline does (without liveness probe and covert checks).
+func (rm *RegistrationManager) VerifAdmit(secret []byte, tt pb.TransportType, params *anypb.Any, covert string) *DecoyRegistration {
+	src := pb.RegistrationSource_API
+	w := &pb.C2SWrapper{SharedSecret: secret, RegistrationSource: &src, RegistrationAddress: net.ParseIP("203.0.113.77").To4(),
+		RegistrationPayload: &pb.ClientToStation{V4Support: proto.Bool(true), Transport: &tt, TransportParams: params,
+			DecoyListGeneration: proto.Uint32(1), ClientLibVersion: proto.Uint32(4), CovertAddress: &covert}}
+	reg, err := rm.NewRegistrationC2SWrapper(w, false)
+	if err != nil || reg == nil {
+		return nil
+	}
+	if rm.TrackRegistration(reg) != nil {
+		return nil
+	}
+	rm.AddRegistration(reg)
+	return reg
+}
+
+// VerifTimeoutUsed reports whether the registration's timeout record is marked used.
+func (rm *RegistrationManager) VerifTimeoutUsed(reg *DecoyRegistration) bool {
+	to, ok := rm.registeredDecoys.decoysTimeouts[reg.IDString()+reg.PhantomIp.String()]
+	return ok && to.status == regStatusUsed
 }
